@@ -52,7 +52,16 @@ FALSY = [None, 0, "", (), False, 0.0, []]
 def run_buffer(order, drains, via_call_chain, falsy=False):
     """Feeds `order` to a real Buffer, draining after the arrivals in `drains`. Returns None or (mech, summary)."""
     from windpyutils.buffers import Buffer
-    b = Buffer()
+    comp = Buffer()         # a second, independent buffer that holds serial 2 and waits for 0 the whole time
+    comp(2, "companion")
+    bad = _run_buffer(Buffer(), order, drains, via_call_chain, falsy)
+    if bad is None and (len(comp) != 1 or comp.waiting_for() != 0 or list(comp) != []):
+        return "other-instance-disturbed", (f"a second Buffer holding serial 2 (waiting for 0), untouched during the run, now has "
+                                            f"len={len(comp)}, waiting_for={comp.waiting_for()}")
+    return bad
+
+
+def _run_buffer(b, order, drains, via_call_chain, falsy):
     if falsy:
         # items that are falsy / None / equal to each other: position in the output is all that identifies them
         return _run_buffer_falsy(b, order, drains)
@@ -140,7 +149,17 @@ def run_print_buffer(order, drains, end, blank=False):
     """drains for PrintBuffer = positions after which the text printed so far is inspected (printing is eager)."""
     from windpyutils.buffers import PrintBuffer
     out = io.StringIO()
-    pb = PrintBuffer(out, end=end)
+    comp_out = io.StringIO()
+    comp = PrintBuffer(comp_out)      # a second, independent print buffer holding serial 2
+    comp.print(2, "companion")
+    bad = _run_print_buffer(PrintBuffer(out, end=end), out, order, drains, end, blank)
+    if bad is None and (len(comp) != 1 or comp.waiting_for != 0 or comp_out.getvalue() != ""):
+        return "other-instance-disturbed", (f"a second PrintBuffer holding serial 2, untouched during the run: len={len(comp)}, "
+                                            f"waiting_for={comp.waiting_for}, printed {comp_out.getvalue()!r}")
+    return bad
+
+
+def _run_print_buffer(pb, out, order, drains, end, blank):
     txt = (lambda rnd, serial: "" if serial % 3 != 2 else f"<{rnd}:{serial}>") if blank else \
         (lambda rnd, serial: f"<{rnd}:{serial}>")
     for rnd in range(2):
@@ -242,7 +261,16 @@ def run_print_flush_gap(order, flush_at):
 
 def run_circular(cap, ops):
     from windpyutils.structures.circular_buffer import CircularBuffer
-    cb = CircularBuffer(cap)
+    comp = CircularBuffer(3)        # a second, independent ring buffer
+    comp.put("companion-a")
+    comp.put("companion-b")
+    bad = _run_circular(CircularBuffer(cap), cap, ops)
+    if bad is None and (list(comp) != ["companion-a", "companion-b"] or len(comp) != 2 or comp.max_size != 3):
+        return "other-instance-disturbed", f"a second ring buffer [companion-a, companion-b], untouched during the run, presents {list(comp)}"
+    return bad
+
+
+def _run_circular(cb, cap, ops):
     hist = []
     ever = []
     if cb.max_size != cap:
